@@ -12,9 +12,9 @@
 (* equations have the solution the reference constructs) on the whole      *)
 (* configuration space, including masks the repository's tests never use.  *)
 (***************************************************************************)
-EXTENDS LeastAction
+EXTENDS LeastAction, StructSpace
 
-CONSTANTS Dims, MaxLevel, MaxK, MaxN, Seed
+CONSTANTS MaxK, MaxN, Seed
 
 Hash(a, b, c, e) == M(M(M(a * 7919 + b * 104) * 31 + M(c * 977 + e * 13)) * 2521 + M(Seed * 7717 + 4242))
 
@@ -23,31 +23,6 @@ HermVal(d, t) == TLCEval([i \in 1..d |-> TLCEval([j \in 1..d |->
     IF i = j THEN <<Hash(t, i, j, 1), 0>>
     ELSE IF i < j THEN <<Hash(t, i, j, 2), Hash(t, i, j, 3)>>
     ELSE FConj(<<Hash(t, j, i, 2), Hash(t, j, i, 3)>>)])])
-
-BlockSeqs(d) == {b \in [1..d -> 0..(d - 1)] :
-                   /\ b[1] = 0
-                   /\ \A i \in 1..(d - 1) : b[i + 1] \in {b[i], b[i] + 1}}
-Energies(d)  == [1..d -> {<<l, 0>> : l \in 0..MaxLevel}]
-BlocksOf(b, d) == {b[i] : i \in 1..d}
-SizeOf(b, d, x) == Cardinality({i \in 1..d : b[i] = x})
-
-\* all symmetric 0/1 matrices of size s with zero diagonal
-SymMasks(s) == {m \in [1..s -> [1..s -> {0, 1}]] :
-                  \A i \in 1..s : m[i][i] = 0 /\ \A j \in 1..s : m[i][j] = m[j][i]}
-
-FdForms(b, d) ==
-  LET bl == BlocksOf(b, d) IN
-  {[fdkind |-> "none", fdset |-> {}, elim |-> [x \in bl |-> <<>>]]}
-  \cup {[fdkind |-> "tuple", fdset |-> s, elim |-> [x \in bl |-> <<>>]] : s \in (SUBSET bl) \ {{}}}
-  \cup UNION {
-        {[fdkind |-> "dict", fdset |-> s, elim |-> e] :
-           e \in {f \in [bl -> UNION {SymMasks(SizeOf(b, d, x)) : x \in bl} \cup {<<>>}] :
-                    \A x \in bl : IF x \in s THEN f[x] \in SymMasks(SizeOf(b, d, x)) ELSE f[x] = <<>>}}
-        : s \in (SUBSET bl) \ {{}}}
-
-Structs == UNION { UNION {
-  {[d |-> d, block |-> b, E |-> e, fdkind |-> f.fdkind, fdset |-> f.fdset, elim |-> f.elim] :
-     e \in Energies(d), f \in FdForms(b, d)} : b \in BlockSeqs(d)} : d \in Dims}
 
 MkRaw(st, k) ==
   LET os == OrderSeq(k, MaxN) IN
